@@ -101,7 +101,10 @@ def r1_worklists(ctx):
             t = g.expr_operand(arg, s.b, 'T')
             fresh = False
             for x in walk(t):
-                if x[0] == 'call' and x[1].split('::')[-1] in ('new', 'with_capacity', 'default') and 'Vec' in x[1]:
+                empty_set = x[0] == 'call' and x[1].split('::')[-1] in ('new', 'with_capacity', 'default') and 'Vec' in x[1]
+                # a marker table `vec![false; n]`: nothing marked
+                empty_marks = x[0] == 'call' and x[1].endswith('vec::from_elem') and x[2] and peel(x[2][0]) == ('int', 0)
+                if empty_set or empty_marks:
                     if g is f:
                         fresh = set(f.loops_containing(x[3])) >= set(f.loops_containing(s.b)) and bool(f.loops_containing(s.b))
                     else:
@@ -186,6 +189,22 @@ def r2_edge_provenance(ctx):
             e_ok = e_ok or fold_end
             dst = fields['dst']
             d_ok = any(x[0] == 'call' and x[1].endswith('::position') for x in walk(dst))
+            if not d_ok:
+                # index form: dst = *index.get(&owner_id) with index: owner id -> position of the FIRST node of that owner, filled by
+                # `index.entry(module.id()).or_insert(i)` in the very loop that pushes node i (enumerate over the same traversal)
+                gets = [x for x in walk(dst) if x[0] == 'call' and x[1].endswith('HashMap::get') and len(x[2]) == 2]
+                fills = [c for c in f.calls() if c.name.endswith('Entry::or_insert') and len(c.args) == 2]
+                others = [c for c in f.calls() if c.name.endswith(('HashMap::insert', 'HashMap::remove', 'HashMap::clear', 'HashMap::retain', 'HashMap::extend'))]
+                if gets and len(fills) == 1 and not others:
+                    c = fills[0]
+                    ent = peel(f.expr_operand(c.args[0], c.b, 'T'))
+                    idx = peel(f.expr_operand(c.args[1], c.b, 'T'))
+                    same_map = ent[0] == 'call' and ent[1].endswith('HashMap::entry') and canon(strip_refs(ent[2][0])) == canon(strip_refs(gets[0][2][0]))
+                    key_is_id = ent[0] == 'call' and len(ent[2]) == 2 and any(x[0] == 'call' and x[1].split('::')[-1] == 'id' for x in walk(ent[2][1]))
+                    enum_idx = idx[0] == 'field' and idx[2] == '0' and any(x[0] == 'call' and x[1].endswith('Iterator::enumerate') for x in walk(idx))
+                    lh = innermost_loop(f, c.b)
+                    pushes = [p_ for p_ in f.calls() if p_.name == 'std::vec::Vec::push' and receiver_field(f.expr_operand(p_.args[0], p_.b, 'T')) == 'nodes' and innermost_loop(f, p_.b) == lh]
+                    d_ok = same_map and key_is_id and enum_idx and lh is not None and len(pushes) == 1
             ctx.check(s_ok and e_ok and d_ok, 'edge-fields:%s' % key.split('::')[-1],
                       'EdgeRaw{start: the endpoint gate itself, end: the gate reached by walking its path, dst: index of the node owning that gate}', f.where(b),
                       {'start': show(start)[:100], 'end': show(end)[:100], 'dst': show(dst)[:100]})
